@@ -30,7 +30,7 @@ def conc(E, t, what):
     return n
 
 
-CONTAINER_RE = re.compile(r"(?:^|::)(BTreeMap|BTreeSet|Vec|HashMap|HashSet|LinkedHashMap|LinkedHashSet|VecDeque)::<.*>::(len|is_empty)$", re.S)
+CONTAINER_RE = re.compile(r"(?:^|::)((BTreeMap|BTreeSet|Vec|HashMap|HashSet|LinkedHashMap|LinkedHashSet|VecDeque)::<.*>|String|str)::(len|is_empty)$", re.S)
 
 
 def dispatch(E, c, tc, args):
@@ -44,7 +44,7 @@ def dispatch(E, c, tc, args):
             n = f(E.as_u(d))
             E.pc.append(n >= 0)
             E.pc.append(n < (1 << 48))
-            return VInt(n, "usize") if m.group(2) == "len" else VBool(n == 0)
+            return VInt(n, "usize") if m.group(3) == "len" else VBool(n == 0)
     # ---------------- Range<usize>
     if tc and tc[0].startswith("std::ops::Range<") and tc[1] == "Iterator" and tc[2] == "next":
         r = ref_chain(E, args[0])
@@ -134,6 +134,32 @@ def dispatch(E, c, tc, args):
                 return VBool(pos is not None)
             if meth == "get":
                 return some(VRef(r.cell, r.path + (("field", pos), ("field", 1)))) if pos is not None else NONE()
+    ms = re.search(r"(?:^|::)(BTreeSet|HashSet|LinkedHashSet)::<.*>::(insert|contains|new|len|is_empty|iter)(?:::<.*>)?$", c, re.S)
+    if ms:
+        meth = ms.group(2)
+        if meth == "new" and not args:
+            return VSeq([], "set")
+        r = ref_chain(E, args[0]) if args and isinstance(args[0], VRef) else None
+        d = E.read_ref(r) if r is not None else None
+        if isinstance(d, VSeq) and d.kind == "set":
+            if meth == "len":
+                return VInt(len(d.items), "usize")
+            if meth == "is_empty":
+                return VBool(len(d.items) == 0)
+            if meth == "iter":
+                return VSeq([VRef(r.cell, r.path + (("field", k),)) for k in range(len(d.items))], "iter")
+            # membership by an abstract equality on element identities: present or not is a solver-checked fork
+            x = E.as_u(args[1])
+            eq = z3.Function("abstract_eq", E.U, E.U, z3.BoolSort())
+            present = z3.Or([z3.Or(eq(E.as_u(it), x), E.as_u(it) == x) for it in d.items]) if d.items else z3.BoolVal(False)
+            if meth == "contains":
+                return VBool(present)
+            # atoms of an uninterpreted equality: both verdicts are satisfiable unless the disjunction folds to a constant
+            i = E.choose([z3.Not(present), present], "set insert", trust=True)
+            if i == 0:
+                d.items.append(args[1])
+                return VBool(True)
+            return VBool(False)
     if tc and tc[1] and tc[1].startswith("Index<") and tc[2] == "index":
         r = ref_chain(E, args[0])
         d = E.read_ref(r)
